@@ -327,6 +327,17 @@ func makeField(v reflect.Value, params fieldParameters) (encoder, error) {
 			tag.class = ClassUniversal
 			tag.constructed = false
 			tag.tagNumber = uint64(params.stringType)
+			if params.stringType == 0 {
+				// no string kind declared on the field: the Go type tells it (universal tag 0 is reserved)
+				switch fieldType {
+				case IA5StringType:
+					tag.tagNumber = TagIA5String
+				case GraphicStringType:
+					tag.tagNumber = TagGraphicString
+				default:
+					tag.tagNumber = TagUTF8String
+				}
+			}
 
 			berType.value = stringEncoder(v.String())
 		}
